@@ -5,6 +5,8 @@
   `processValue` / `postInit` (Converters.lean: `_process_string_field_value`, `post_init_converters`).
 -/
 import J2M.Proofs.Converters
+import J2M.Proofs.Render
+import J2M.Proofs.Inh
 namespace J2M.C18
 
 open J2M J2M.Conv
@@ -97,5 +99,152 @@ example : mapLeaves "IntString" (.obj [("a", .arr [.str "1", .str "22"]), ("b", 
 -- outside the type the call does raise: a rejected string below a required list
 example : processValue accEx ["L", "S"] (.arr [.str "x"]) (.list (.ser "IntString")) false = .error .valueError := by
   simp [processValue, accEx, List.mapM_cons, bind, Except.bind, Except.map]
+
+/-! ## 3. `others_untouched` -/
+
+/-- `get_string_field_paths` succeeds exactly when no field has a `tuple` / raw-dict leaf … -/
+theorem paths_ok_iff (fields : Fields) :
+    (∃ ps, stringFieldPaths fields = .ok ps) ↔ ∀ f ∈ fields, NoTupleObj f.2 :=
+  stringFieldPaths_ok_iff fields
+
+/-- … (otherwise it raises `TypeError`) … -/
+theorem paths_error (fields : Fields) (e : PyErr) (h : stringFieldPaths fields = .error e) :
+    e = .typeError ∧ ∃ f ∈ fields, ¬ NoTupleObj f.2 :=
+  stringFieldPaths_error fields e h
+
+/-- … and then lists, in field order, one entry per field whose type is a chain
+    (`fieldEntry (key, t) = some (key, pathStr t)` for a chain `t`, `none` otherwise;
+     `pathStr t` = the tokens of `pathOf t` joined by `.`, or `""` for a bare pseudo-type) -/
+theorem paths_eq (fields : Fields) (h : ∀ f ∈ fields, NoTupleObj f.2) :
+    stringFieldPaths fields = .ok (fields.filterMap fieldEntry) :=
+  stringFieldPaths_eq fields h
+
+/-- only keys whose type is a chain are listed, each with the path of its type -/
+theorem paths_only_chains {fields : Fields} {ps : List (String × String)} (h : stringFieldPaths fields = .ok ps)
+    (name p : String) :
+    (name, p) ∈ ps ↔ ∃ t k, (name, t) ∈ fields ∧ Chain k t ∧ p = pathStr t :=
+  mem_stringFieldPaths h name p
+
+/-- the decorator text of a chain field splits back into the path of its type: `'name#O.L.S'` ↦ `["O","L","S"]`,
+    `'name'` ↦ `["S"]` (what `post_init_converters` recovers with `split('#')` / `split('.')`) -/
+theorem decorator_path_roundtrip {k t} (hc : Chain k t) : splitPathStr (pathStr t) = pathOf t :=
+  splitPathStr_pathStr hc
+
+/-- the post-init method keeps the set of attributes and leaves every attribute it was not given a path for
+    exactly as it was -/
+theorem others_untouched (acc : Accepts) (ann : Fields) (ps : List (String × List String))
+    (self self' : List (String × PVal)) (h : postInit acc ann ps self = .ok self') :
+    self'.map (·.1) = self.map (·.1) ∧
+    ∀ name, name ∉ ps.map (·.1) → self'.find? (·.1 = name) = self.find? (·.1 = name) :=
+  postInit_frame acc ann ps self self' h
+
+/-- together: a field whose type is not a chain is not listed, hence not touched -/
+theorem non_chain_untouched (acc : Accepts) (fields : Fields) (ps : List (String × String))
+    (hps : stringFieldPaths fields = .ok ps) (hnd : (fields.map (·.1)).Nodup)
+    (self self' : List (String × PVal))
+    (h : postInit acc fields (ps.map (fun p => (p.1, splitPathStr p.2))) self = .ok self')
+    (name : String) (t : Ty) (hf : (name, t) ∈ fields) (hnc : ∀ k, ¬ Chain k t) :
+    self'.find? (·.1 = name) = self.find? (·.1 = name) := by
+  refine (others_untouched acc fields _ self self' h).2 name ?_
+  intro hm
+  simp only [List.map_map, List.mem_map, Function.comp] at hm
+  obtain ⟨⟨n, p⟩, hmem, hn⟩ := hm
+  simp only at hn; subst hn
+  obtain ⟨t', k, hf', hc, _⟩ := (paths_only_chains hps n p).1 hmem
+  -- keys are unique, so `t' = t`
+  have : t' = t := by
+    have h1 := Fields.get?_of_mem hnd hf'
+    have h2 := Fields.get?_of_mem hnd hf
+    rw [h1] at h2; exact Option.some.inj h2
+  exact hnc k (this ▸ hc)
+
+-- non-vacuity
+private def fieldsEx : Fields :=
+  [("a", .ser "IntString"), ("b", .opt (.list (.ser "IntString"))), ("c", .list .unknown), ("d", .ptr "1"),
+   ("e", .union [.ser "IntString", .int]), ("f", .str)]
+example : ∀ f ∈ fieldsEx, NoTupleObj f.2 := by decide
+example : stringFieldPaths fieldsEx = .ok [("a", ""), ("b", "O.L.S")] := rfl
+example : splitPathStr "" = ["S"] ∧ splitPathStr "O.L.S" = ["O", "L", "S"] := by decide
+example : ([("a", ""), ("b", "O.L.S")] : List (String × String)).map (fun p => (p.1, splitPathStr p.2))
+    = [("a", ["S"]), ("b", ["O", "L", "S"])] := by decide
+example : postInit accEx fieldsEx [("a", ["S"]), ("b", ["O", "L", "S"])]
+      [("a", .raw (.str "1")), ("b", .raw (.arr [.str "22"])), ("c", .raw (.arr [])), ("f", .raw (.str "1"))]
+    = .ok [("a", .parsed "IntString" "1"), ("b", .list [.parsed "IntString" "22"]), ("c", .raw (.arr [])),
+           ("f", .raw (.str "1"))] := rfl
+
+/-! ## 4. the whole post-init method on an instance built from a sample (`construct_ok`, post-init part)
+
+  `fields` = the model's fields (= the class annotations, keyed as the attributes), `attrs` = the instance
+  attributes after `__init__`: the sample's values, and for an absent optional field its default (`None`, `[]`,
+  `{}`), all of which lie in the field's type. `tokenPaths fields` = the decorator's entries. -/
+
+/-- the decorator text entries of `stringFieldPaths`, split the way `post_init_converters` splits them, are
+    `tokenPaths fields` -/
+theorem decorator_entries (fields : Fields) (h : ∀ f ∈ fields, NoTupleObj f.2) :
+    ∃ ps, stringFieldPaths fields = .ok ps ∧
+      ps.map (fun p => (p.1, splitPathStr p.2)) = tokenPaths fields :=
+  ⟨_, stringFieldPaths_eq fields h, decoratorPaths_eq fields⟩
+
+/-- no exception escapes; every chain field holds its converted value (`mapLeaves` under its kind) and every
+    other attribute is what it was:
+    `convAttr fields (name, v) = mapLeaves k v` if the type of `name` is a chain over `k`, `raw v` otherwise -/
+theorem post_init_correct (acc : Accepts) (g : ModelLookup) (fields : Fields) (attrs : List (String × Json))
+    (hndf : (fields.map (·.1)).Nodup) (hnda : (attrs.map (·.1)).Nodup)
+    (hcover : ∀ f ∈ fields, (∃ k, Chain k f.2) → f.1 ∈ attrs.map (·.1))
+    (hinh : ∀ kv ∈ attrs, ∀ t, Fields.get? fields kv.1 = some t → Inh acc g t kv.2) :
+    postInit acc fields (tokenPaths fields) (attrs.map (fun kv => (kv.1, .raw kv.2)))
+      = .ok (attrs.map (fun kv => (kv.1, convAttr fields kv))) :=
+  postInit_correct acc g fields attrs hndf hnda hcover hinh
+
+-- non-vacuity: `fieldsEx` above with a sample that leaves `b` at its default
+private def attrsEx : List (String × Json) :=
+  [("a", .str "1"), ("b", .null), ("c", .arr []), ("f", .str "22")]
+example : tokenPaths fieldsEx = [("a", ["S"]), ("b", ["O", "L", "S"])] := rfl
+example : (fieldsEx.map (·.1)).Nodup ∧ (attrsEx.map (·.1)).Nodup := by decide
+example : ∀ f ∈ fieldsEx, (∃ k, Chain k f.2) → f.1 ∈ attrsEx.map (·.1) := by
+  intro f hf ⟨k, hc⟩
+  simp [fieldsEx] at hf
+  rcases hf with rfl | rfl | rfl | rfl | rfl | rfl
+  · decide
+  · decide
+  · cases hc; rename_i h; cases h
+  · cases hc
+  · cases hc
+  · cases hc
+example : ∀ kv ∈ attrsEx, ∀ t, Fields.get? fieldsEx kv.1 = some t → Inh accEx gEx t kv.2 := by
+  intro kv hkv t ht
+  simp [attrsEx] at hkv
+  rcases hkv with rfl | rfl | rfl | rfl <;> simp [fieldsEx, Fields.get?, List.find?] at ht <;> subst ht
+  · exact .ser (by decide)
+  · exact .optNull
+  · exact .list (by simp)
+  · exact .str
+example : attrsEx.map (fun kv => (kv.1, convAttr fieldsEx kv))
+    = [("a", .parsed "IntString" "1"), ("b", .raw .null), ("c", .raw (.arr [])), ("f", .raw (.str "22"))] := rfl
+
+/-! ## 5. per-field converters of attrs classes generated without post-init converters (emission part)
+
+  By `J2M.C04.field_line_attrs` the attrs field line is
+  `name: T = attr.ib(` default/factory ++ `attrsConvKw c optional t` ++ metadata `)`. -/
+
+/-- `converter=K` is emitted exactly for a required field of type `ser K`, `converter=optional(K)` exactly for
+    an optional field of type `opt (ser K)`, and only when post-init converters are off -/
+theorem attrs_field_converter_iff (c : RenderCfg) (optional : Bool) (t : Ty) (v : String) :
+    ("converter", v) ∈ Rend.attrsConvKw c optional t ↔
+      c.postInitEff = false ∧
+      ((optional = true ∧ ∃ k, Rend.optInner t = .ser k ∧ v = "optional(" ++ k ++ ")") ∨
+       (optional = false ∧ ∃ k, t = .ser k ∧ v = k)) := by
+  unfold Rend.attrsConvKw
+  cases hp : c.postInitEff
+  · cases optional
+    · cases t <;> simp
+    · generalize Rend.optInner t = inner
+      cases inner <;> simp
+  · simp
+
+example : Rend.attrsConvKw ⟨.attrs, 10, false, true, false, [], "typing", [], [], "M"⟩ true (.opt (.ser "IntString"))
+    = [("converter", "optional(IntString)")] := rfl
+example : Rend.attrsConvKw ⟨.attrs, 10, true, true, false, [], "typing", [], [], "M"⟩ true (.opt (.ser "IntString"))
+    = [] := rfl
 
 end J2M.C18
